@@ -130,6 +130,10 @@ class Program:
                 ln = self._emit(ind, "%s = %d;" % (s["n"], s.get("v", 2)))
                 s["_line"] = ln
                 self.occs.append(Occ(ln, s["n"], "write", scope))
+            elif t == "call":
+                ln = self._emit(ind, "%s(1);" % s["n"])
+                s["_line"] = ln
+                self.occs.append(Occ(ln, s["n"], "use", scope))
             elif t == "block":
                 bk = s["bk"]
                 if bk == "if":
@@ -461,7 +465,7 @@ def labels(prog):
 # ---------------------------------------------------------------------------------------------
 # Hypothesis strategy
 
-def tree_strategy(max_depth=3, bare_blocks=True):
+def tree_strategy(max_depth=3, bare_blocks=True, calls=False):
     from hypothesis import strategies as st
     name_st = st.sampled_from(ALPHABET)
     use_name_st = st.one_of(name_st, name_st, name_st, name_st, st.sampled_from(["u", "console"]))
@@ -487,7 +491,10 @@ def tree_strategy(max_depth=3, bare_blocks=True):
                     kws = ["var", "var", "let", "const"]
                     out.append({"t": "decl", "kw": draw(st.sampled_from(kws)), "n": draw(name_st), "v": val()})
                 elif r < 58:
-                    out.append({"t": "read", "n": draw(use_name_st)})
+                    if calls and draw(st.integers(0, 2)) == 0:
+                        out.append({"t": "call", "n": draw(name_st)})
+                    else:
+                        out.append({"t": "read", "n": draw(use_name_st)})
                 elif r < 64:
                     out.append({"t": "write", "n": draw(name_st), "v": val()})
                 elif r < 82 and bdepth < 2:
@@ -580,7 +587,7 @@ def probe_source(tree):
                 v = fresh()
                 meta["decl_value"][str(ln)] = v
                 lines.append(pad + "%s %s = %d;" % (s["kw"], s["n"], v))
-            elif t in ("read", "write"):
+            elif t in ("read", "write", "call"):
                 lines.append(pad + "try { __out.push([%d, __tag(%s)]); } catch (e) { __out.push([%d, "
                              "e instanceof ReferenceError ? (/before init/.test(e.message) ? 'TDZ' : "
                              "'unresolved') : 'error:' + e.name]); }" % (ln, s["n"], ln))
